@@ -89,11 +89,11 @@ type histGen struct {
 	spec       gen.StoreSpec
 	exact      bool
 	budget     *gen.Budget // shared by every history of a case whose objects meet (merge, copy, compare)
-	pool       []float64 // values (magnitudes with sign) to draw from
+	pool       []float64   // values (magnitudes with sign) to draw from
 	weights    [opNumKinds]int
-	anySpec    bool    // round-trip / argument store kinds drawn from all 5 kinds (else non-collapsing only)
-	sameTarget bool    // round trips always go back into the sketch's own store spec
-	running    float64 // upper bound of the weight the main sketch holds
+	anySpec    bool      // round-trip / argument store kinds drawn from all 5 kinds (else non-collapsing only)
+	sameTarget bool      // round trips always go back into the sketch's own store spec
+	running    float64   // upper bound of the weight the main sketch holds
 	comp       []float64 // upper bound of the weight each live companion holds
 	identityCM bool      // mapping changes are identity conversions only (equal mapping, scale 1): an exact copy
 }
